@@ -607,7 +607,7 @@ func reports(c tcase, o outcome) (success, failure bool) {
 	return
 }
 
-var eofWithDataGivenUp atomic.Int64
+var eofWithDataGivenUp, smallMTUGivenUp atomic.Int64
 
 func judge(c tcase, o outcome) []viol {
 	var vs []viol
@@ -618,6 +618,14 @@ func judge(c tcase, o outcome) []viol {
 	}
 	success, failure := reports(c, o)
 	if honest {
+		if o.err != nil && c.RecvMTU != 0 && c.RecvMTU < 1300 {
+			// below the default MTU a module may not be able to get its messages through at all: "nothing" is accepted
+			if len(o.dest) > 0 {
+				add("file-after-failed-small-mtu-transfer", "receive MTU %d: TO2 failed (%v) yet %d file(s) appeared", c.RecvMTU, o.err, len(o.dest))
+			}
+			smallMTUGivenUp.Add(1)
+			return vs
+		}
 		if o.err != nil && c.Reads == "eof-with-data" {
 			// a source that hands out its last bytes together with io.EOF: the sender may give up (the library treats
 			// any error from Read as fatal). "Identical or nothing": giving up is accepted, a file is not.
@@ -812,6 +820,13 @@ func cases(thorough bool) []tcase {
 			}
 		}
 	}
+	// wget at receive MTUs far below the default: the owner's command (active, sha-384, name, url) may then take several
+	// rounds to arrive; honest transfers arrive identical or fail, corrupted ones never leave a file
+	for _, mtu := range []uint16{64, 72, 80, 88, 96, 104, 112, 120, 128, 160, 256, 512} {
+		for _, b := range []string{"ok", "flip", "other", "shorter"} {
+			out = append(out, tcase{Kind: "wget", Size: 100, Content: 1, HTTP: b, RecvMTU: mtu, SendMTU: 1300, Fault: none})
+		}
+	}
 	// the device module's Rename option set to a copying move
 	for _, sz := range []int{1, 100, 1014, 5000, 32767, 32768, 32769, 70000} {
 		for _, ch := range []int{0, 7, 1268} {
@@ -965,6 +980,7 @@ func main() {
 	r.Assume("MTUs below the protocol default of 1300 are outside the grid: fdo.upload sends fixed 1014-byte chunks that the protocol sizes for that minimum")
 	r.Assume("a transfer whose length was raised in transit never completes; the harness cuts the run after 40 consecutive rounds without service info in either direction instead of waiting for the library's 1e6-round limit")
 	r.Set("transfers_given_up_on_read_returning_data_with_eof", int(eofWithDataGivenUp.Load()))
+	r.Set("small_mtu_transfers_that_failed_cleanly", int(smallMTUGivenUp.Load()))
 	r.Finish()
 }
 
